@@ -38,6 +38,15 @@ CHECKS = {
               "~6e3 sequences / 4e4 steps quick. No absence proof."),
         note="Trusted: NumPy float64 linear algebra (svd/eigh); x64 run of the real functions, eagerly and under jit, on copies of the state dict.",
         design="DESIGN.md section 3, C16"),
+    "C01": dict(
+        category="exploration",
+        technique="property-based testing of matrix_inverse_pth_root (Newton / eigh / LOBPCG-deflated) on generated PSD matrices against a NumPy float64 residual oracle with ridge reconstruction and conditioning-scaled slack",
+        text=("Generated-input search over PSD matrices with drawn size, rank, spectrum shape, regularised condition number, scale, padding, "
+              "exponent, ridge, ridge mode and routine (~1.3e4 roots quick, ~2e5 thorough): finiteness, symmetry, exact zero padding, "
+              "all-padding convention, residual of X^p(A+dI) against the reported error plus K*n*p*u*kappa, eigenvalue estimate never above "
+              "lambda_max, exact 1x1 closed form. The slack constant is calibrated and its worst observed ratio is reported. No absence proof."),
+        note="Trusted: NumPy float64 eigvalsh/matrix_power; ridge reconstructed from the routine's own metrics (max_eigen_value, total_retries).",
+        design="DESIGN.md section 3, C01"),
 }
 
 NOT_YET = {}
